@@ -43,6 +43,11 @@ impl<'a> Repr for Cow<'a, str> {
         format!("{:?}", self.as_ref())
     }
 }
+impl Repr for std::net::IpAddr {
+    fn repr(&self) -> String {
+        format!("ip:{self}")
+    }
+}
 impl Repr for () {
     fn repr(&self) -> String {
         "()".to_string()
